@@ -16,6 +16,7 @@ package common
 //@   ensures err != nil && errorsAs(err, "net.Error") && !errorsIs(err, context.Canceled) && !errorsIs(err, context.DeadlineExceeded) && !errorsIs(err, io.EOF) ==> connErr(res)
 //@   ensures err != nil && !connErr(err) && unwrap(res) == nil ==> !connErr(res)
 //@   ensures !errorsIs(err, core.ErrCircuitOpen) ==> !errorsIs(res, core.ErrCircuitOpen)
+//@   ensures !errorsAs(res, "*core.ResponseStartedError")
 
 // ---- C16: upstream URLs stay on the configured endpoint
 // hasDotSeg(p): some "/"-separated segment of p is "." or ".." (proved equal to containsDotDot).
